@@ -14,7 +14,10 @@ def check(v, tier, seed):
     pre = getattr(__import__("c10_model"), "run", None) if os.path.exists(os.path.join(os.path.dirname(__file__), "c10_model.py")) else None
     if pre:
         pre(v, tier, seed, wd)
-    for name, args in rtcommon.campaigns(tier, seed):
+    # the frozen streams of corpus/ (this bitstream version and every earlier one), each decoded ordinarily, with every float-carrying type skipped,
+    # and with each such type skipped alone
+    streams = [("streams", "streams %s" % os.path.join(vlib.ROOT, "corpus")), ("streams_big", "streams %s" % os.path.join(vlib.ROOT, "corpus_big"))]
+    for name, args in rtcommon.campaigns(tier, seed) + streams:
         f, st, err = rtcommon.run_campaign(v, exe, name, args, wd)
         if err:
             v.violation({"what": "codec crashed during the %s campaign" % name, "rc": err[0], "output": err[1][-1500:]}, tags={"kind": "crash"})
